@@ -1,0 +1,73 @@
+//go:build verif
+
+/*
+ Licensed to the Apache Software Foundation (ASF) under one
+ or more contributor license agreements.  See the NOTICE file
+ distributed with this work for additional information
+ regarding copyright ownership.  The ASF licenses this file
+ to you under the Apache License, Version 2.0 (the
+ "License"); you may not use this file except in compliance
+ with the License.  You may obtain a copy of the License at
+
+     http://www.apache.org/licenses/LICENSE-2.0
+
+ Unless required by applicable law or agreed to in writing, software
+ distributed under the License is distributed on an "AS IS" BASIS,
+ WITHOUT WARRANTIES OR CONDITIONS OF ANY KIND, either express or implied.
+ See the License for the specific language governing permissions and
+ limitations under the License.
+*/
+
+package locking
+
+import (
+	"unsafe"
+
+	"github.com/apache/yunikorn-core/pkg/simseam"
+)
+
+// With the verif tag these methods shadow the ones promoted from the embedded
+// go-deadlock types: every acquisition and release is first reported to the
+// simulation seam (a nil hook is a no-op) and then performed for real.
+
+func (m *Mutex) Lock() {
+	if h := simseam.LockHook; h != nil {
+		h(unsafe.Pointer(m), simseam.KindLock)
+	}
+	m.Mutex.Lock()
+}
+
+func (m *Mutex) Unlock() {
+	if h := simseam.LockHook; h != nil {
+		h(unsafe.Pointer(m), simseam.KindUnlock)
+	}
+	m.Mutex.Unlock()
+}
+
+func (m *RWMutex) Lock() {
+	if h := simseam.LockHook; h != nil {
+		h(unsafe.Pointer(m), simseam.KindLock)
+	}
+	m.RWMutex.Lock()
+}
+
+func (m *RWMutex) Unlock() {
+	if h := simseam.LockHook; h != nil {
+		h(unsafe.Pointer(m), simseam.KindUnlock)
+	}
+	m.RWMutex.Unlock()
+}
+
+func (m *RWMutex) RLock() {
+	if h := simseam.LockHook; h != nil {
+		h(unsafe.Pointer(m), simseam.KindRLock)
+	}
+	m.RWMutex.RLock()
+}
+
+func (m *RWMutex) RUnlock() {
+	if h := simseam.LockHook; h != nil {
+		h(unsafe.Pointer(m), simseam.KindRUnlock)
+	}
+	m.RWMutex.RUnlock()
+}
